@@ -174,17 +174,17 @@ Proof.
     + destruct (find (t, i) be); [apply BeHonest_del|]; exact HB.
     + destruct (guard_remove t c0); [|exact HC].
       destruct (c_remove c t i) as [c'|] eqn:R; [|exact HC].
-      eapply CacheFaulty_le; [exact HC | eapply c_remove_In; eassumption].
+      eapply CacheFaulty_le; [exact HC | eapply c_remove_le; eassumption].
   - split; [exact HB|]. destruct (guard_list_with_size t false); [|exact HC].
-    eapply CacheFaulty_le; [exact HC | apply (sh_in _ _ _ (rnl_shrinks c t (be_list be t) ord))].
+    eapply CacheFaulty_le; [exact HC | apply (sh_le _ _ _ (rnl_shrinks c t (be_list be t) ord))].
   - split; [exact HB|].
-    eapply CacheFaulty_le; [exact HC | apply (sh_in _ _ _ (rnl_shrinks c Pack l ord))].
+    eapply CacheFaulty_le; [exact HC | apply (sh_le _ _ _ (rnl_shrinks c Pack l ord))].
   - subst d. split; [apply BeHonest_set; exact HB | exact HC].
   - rewrite be_remove_spec. simpl. split; [|exact HC].
     destruct (find (t, i) be); [apply BeHonest_del|]; exact HB.
   - split; [exact HB | apply CacheFaulty_write; assumption].
   - split; [exact HB | exact HC].
-  - split; [exact HB|]. eapply CacheFaulty_le; [exact HC|]. simpl. intro p. apply In_del.
+  - split; [exact HB|]. eapply CacheFaulty_le; [exact HC|]. intros k d F. cbn [files] in F. eapply find_del_some. exact F.
 Qed.
 
 (* ------------------------------------------------------------------ coherence along a step *)
